@@ -508,4 +508,7 @@ def run(chk, fb, tier):
     _d6(chk, fb, files)
     _d7(chk, fb)
     _d8(chk, fb, files)
+    from . import copyrule
+    chk.rule("DC", "copy constructor and copy assignment copy the same members and agree on clone versus share for owning pointers; operator= empties a member container before re-populating it")
+    copyrule.check(chk, fb, "DC", lambda c: any(c["file"].endswith(x) for x in files), floor=4)
     chk.assume("DirichletDiscreteDistribution is multivariate and outside the property's family list")
